@@ -9,20 +9,24 @@ PROP = {
   "saml2_tophat.time_util:before",
   "saml2_tophat.time_util:after",
   "saml2_tophat.population:Population.get_info_from",
-  "saml2_tophat.population:Population.remove_person"
+  "saml2_tophat.population:Population.remove_person",
+  "saml2_tophat.cache:Cache.entities",
+  "saml2_tophat.population:Population.issuers_of_info",
+  "saml2_tophat.population:Population.sources",
+  "saml2_tophat.population:Population.stale_sources_for_person"
  ],
  "bounded": [
   "cache_history"
  ],
  "level": "other",
- "explanation": "Deductive part (dict model of the store): Cache.set stores under exactly code(name_id) / entity_id with the given expiry and touches no other subject and no other source of the subject; Cache.get returns a copy of exactly that entry, raises ToOld exactly when expiry checking is on and the expiry is 0 or has passed; Cache.active, Cache.delete (everything about the subject, nothing else), Cache.reset; time_util.before/after against the clock ghost. Population.get_info_from and Population.remove_person (the wrappers the client calls on login / logout) carry the same clauses, checked against the Cache contracts. Cache.get_identity (union over sources via set/list conversions), entities, subjects and the shelve-backed variant are NOT verified deductively: BOUNDED exhaustive operation histories against a reference model under a frozen clock, labelled bounded. Distinct subjects have distinct keys by the C18 encoding (assumed here).",
+ "explanation": "Deductive part (dict model of the store): Cache.set stores under exactly code(name_id) / entity_id with the given expiry and touches no other subject and no other source of the subject; Cache.get returns a copy of exactly that entry, raises ToOld exactly when expiry checking is on and the expiry is 0 or has passed; Cache.active, Cache.delete (everything about the subject, nothing else), Cache.reset; time_util.before/after against the clock ghost. Population.get_info_from and Population.remove_person (the wrappers the client calls on login / logout) carry the same clauses, checked against the Cache contracts. Cache.entities and its wrappers Population.issuers_of_info / sources return exactly the sources stored for the subject (one entry each); Population.stale_sources_for_person reports only sources that were asked about or that the cache holds for this subject (which of them -- those not active -- is decided inside a filtering comprehension the engine over-approximates). Cache.get_identity (union over sources via set/list conversions), entities, subjects and the shelve-backed variant are NOT verified deductively: BOUNDED exhaustive operation histories against a reference model under a frozen clock, labelled bounded. Distinct subjects have distinct keys by the C18 encoding (assumed here).",
  "assumptions": [
   "E-SHELVE",
   "E-CLOCK"
  ],
  "not_decided": [
-  "Cache.get_identity / entities / subjects as deductive obligations",
+  "Cache.get_identity / subjects as deductive obligations; which sources stale_sources_for_person reports (filter over-approximated)",
   "observation: for expiry 0 with non-empty data active() answers True while get() raises ToOld (0 means \"no limit\" for one and \"already expired\" for the other); the statement does not fix the meaning of 0",
-  "Population.add_information_about_person (draft contract in contracts/_unproved_population_add_contract.txt: the call to Cache.set after the defensive dict() copy is not discharged), stale_sources_for_person (filtering comprehension), issuers_of_info / sources / subjects (list(keys()))"
+  "Population.add_information_about_person (draft contract in contracts/_unproved_population_add_contract.txt: the call to Cache.set after the defensive dict() copy is not discharged), Cache.subjects (decode of every key)"
  ]
 }
